@@ -1,4 +1,5 @@
 import TunnoxModel.Proofs.C13
+import TunnoxModel.Proofs.C13Lin
 /-!
 # C13 — storage backends implement one TTL key-value semantics
 
@@ -117,6 +118,21 @@ theorem expiry_guard_everywhere :
       (sk.filter (fun t => t == "After")).length == (sk.filter (fun t => t == "IsZero")).length
         || sk == Gen.Skel.Mem_GetExpiration) = true := by decide +kernel
 
+/-- **Atomicity under concurrent callers.** Each call being one critical section (`lock_facts`),
+a concurrent execution is a schedule of atomic steps.  For EVERY number of callers, every program
+per caller and EVERY schedule that lets all callers finish, what the callers observe on the memory
+backend is explained by the sequential map with expiry executing the calls in one order
+(`holdsConc`, the predicate applied to the real backend's free-running and gated runs).
+Scope: one burst at a fixed clock reading `now`, from the empty store; across clock readings the
+sequential theorem `C13_refines` applies to the lock-order history. -/
+theorem C13_linearizable (now : Nat) (sched : List Nat) (progs : List (List Op))
+    (hc : completes sched progs = true) :
+    holdsConc now progs (observeThreads render progs.length (runSched now sched FMap.empty progs)) = true := by
+  unfold holdsConc observeThreads
+  rw [List.range_eq_range', zip_range progs _ 0]
+  simp only [List.length_map, List.length_range', beq_self_eq_true, Bool.true_and]
+  exact lin_sched now sched FMap.empty TTLStore.empty progs _ (R_refl _ _) hc (Nat.le_refl _)
+
 /-! ## Findings -/
 
 /-- Known finding `redis-hash-int-float` (not repaired): an int64 hash member written through the
@@ -151,5 +167,9 @@ def exampleHistory : History :=
 example : TTLStore.Monotone exampleHistory = true := by decide
 example : C13.run exampleHistory FMap.empty =
     [.ok, .bool true, .val (.atom (.str "w")), .ok, .int 2, .dur 0] := by decide +kernel
+
+/-- A schedule that completes two callers; the hypothesis of `C13_linearizable` is inhabited. -/
+example : completes [1, 0, 0, 1] [[.setNX "a" (.atom (.str "x")) 0, .get "a"], [.setNX "a" (.atom (.str "y")) 0, .get "a"]] = true := by
+  decide
 
 end Tunnox.C13
